@@ -154,6 +154,43 @@ pub fn scenarios(cfg: &str) -> Vec<Vec<Ev>> {
         // notified receiver, value stolen, re-register, close with parked sender and notified receiver
         v.push(vec![e(RECV_CREATE, 0, 0), e(RECV_POLL, 0, 0), e(RECV_CREATE, 1, 0), e(RECV_POLL, 1, 0), e(TRY_SEND, 0, 0), e(TRY_RECV, 0, 0), e(RECV_POLL, 0, 1), e(TRY_SEND, 0, 0), e(RECV_DROP, 1, 0), e(CLOSE, 0, 0), e(RECV_POLL, 0, 0)]);
     }
+    // a stream queued behind cap+1 plain receivers while cap+2 senders arrive (two of them block): every receiver
+    // takes its value, then the stream is polled; (b) the same with a close() while one sender is blocked
+    if cap <= 5 {
+        let c = cap as u8;
+        for close in [false, true] {
+            let mut s = vec![];
+            for i in 0..=c {
+                s.push(e(RECV_CREATE, i, 0));
+                s.push(e(RECV_POLL, i, 0));
+            }
+            s.push(e(STREAM_CREATE, 0, 0));
+            s.push(e(STREAM_POLL, 0, 0));
+            let senders = if close { c + 1 } else { c + 2 };
+            for j in 0..senders {
+                s.push(e(SEND_CREATE, j, 0));
+                s.push(e(SEND_POLL, j, 0));
+            }
+            if close {
+                s.push(e(CLOSE, 0, 0));
+                s.push(e(SEND_POLL, c, 1));
+            }
+            for i in 0..=c {
+                s.push(e(RECV_POLL, i, 1));
+            }
+            s.push(e(STREAM_POLL, 0, 1));
+            for j in 0..senders {
+                s.push(e(SEND_POLL, j, 1));
+            }
+            s.push(e(STREAM_POLL, 0, 0));
+            if !close {
+                s.push(e(CLOSE, 0, 0));
+            }
+            s.push(e(STREAM_POLL, 0, 1));
+            s.push(e(STREAM_POLL, 0, 1));
+            v.push(s);
+        }
+    }
     // deep queues (receivers): n receivers parked on the empty channel, interior ones cancelled, then one value
     // per remaining receiver arrives through send futures; at the end the channel is closed
     for (n, cancel, newest_first) in crate::hist::deep_queue_patterns(&[5, 6]) {
@@ -779,9 +816,19 @@ impl<M: RawMutex + 'static, P: Payload> MpmcCore<M, P> {
         if self.stream.live && self.stream.pending {
             pend_recv.push((99, self.stream.woken()));
         }
-        let avail = !self.order.is_empty();
+        // With the hook on, "a value is available" and "closed" are read from the channel itself (buffered items,
+        // parked senders, closed flag - under its lock), not from the reference FIFO: these wake-up predicates are
+        // then plain observations and stay meaningful even if the reference model has drifted (engine: DRIFT_FREE).
+        let hooked = crate::slots::inspect_on() && self.holders() > 0;
+        let (avail, n_avail) = if hooked {
+            let n = self.view.prim.count as usize + self.view.queues.get(1).map_or(0, |q| q.len());
+            (n > 0, n)
+        } else {
+            (!self.order.is_empty(), self.order.len())
+        };
+        let closed_now = if hooked { self.view.prim.flag } else { self.closed };
         ctx.check("C10", "value-available-and-receivers-pending-implies-one-woken", avail && !pend_recv.is_empty(), pend_recv.iter().any(|p| p.1), || {
-            format!("{} value(s) available, pending receivers {:?} (99 = stream), none woken since its last poll", self.order.len(), pend_recv)
+            format!("{} value(s) available, pending receivers {:?} (99 = stream), none woken since its last poll", n_avail, pend_recv)
         });
         // C10 (b): a pending sender whose value was accepted has been woken
         for (i, s) in self.sends.v.iter().enumerate() {
@@ -793,8 +840,8 @@ impl<M: RawMutex + 'static, P: Payload> MpmcCore<M, P> {
             }
         }
         for p in &pend_recv {
-            ctx.check("C10", "every-pending-future-woken-after-close", self.closed, p.1, || format!("receiver {} is pending after close and was not woken", p.0));
-            ctx.check("C11", "every-pending-future-woken-after-close", self.closed, p.1, || format!("receiver {} is pending after close and was not woken", p.0));
+            ctx.check("C10", "every-pending-receiver-woken-after-close", closed_now, p.1, || format!("receiver {} is pending after close and was not woken", p.0));
+            ctx.check("C11", "every-pending-receiver-woken-after-close", closed_now, p.1, || format!("receiver {} is pending after close and was not woken", p.0));
         }
         // C08: nothing that is still reachable has been dropped
         let n_out = self.outstanding.len();
@@ -1179,6 +1226,12 @@ impl<M: RawMutex + 'static, P: Payload> MpmcCore<M, P> {
                 self.stream.last_fl = ev.b;
                 let was_term = self.stream.terminated;
                 let was_registered = self.stream.pending && !self.stream.woken();
+                // C17 (stream clause), facts before the call: is a value available, is the channel closed, and does
+                // another pending receiver hold an unconsumed wake-up (then the available value may be meant for it)
+                let hooked = crate::slots::inspect_on() && self.holders() > 0;
+                let avail_before = if hooked { self.view.prim.count as usize + self.view.queues.get(1).map_or(0, |q| q.len()) > 0 } else { !self.order.is_empty() };
+                let closed_before = if hooked { self.view.prim.flag } else { self.closed };
+                let others_entitled = self.recvs.v.iter().any(|s| s.pending() && s.woken());
                 let (al, de) = self.alloc_allowance(true);
                 let de = de.max(self.dealloc_allowance(false));
                 let api = self.api.as_mut().unwrap();
@@ -1201,6 +1254,14 @@ impl<M: RawMutex + 'static, P: Payload> MpmcCore<M, P> {
                         } else {
                             if let Poll::Ready(None) = p {
                                 self.stream.terminated = true;
+                            }
+                            if p.is_pending() {
+                                ctx.check("C17", "stream-returns-none-once-closed-and-drained", closed_before && !avail_before, false, || {
+                                    "the channel is closed and drained, yet the polled stream returned Pending instead of None".into()
+                                });
+                                ctx.check("C17", "stream-pending-only-while-no-value-is-due-to-it", avail_before && !others_entitled && !closed_before, false, || {
+                                    "a value is available (buffered or in a parked sender) and no other receiver holds a wake-up, yet the polled stream returned Pending (successive receive futures would have yielded the value)".to_string()
+                                });
                             }
                             self.recv_result(ctx, p, "stream", was_registered);
                         }
